@@ -26,6 +26,7 @@ func init() {
 func runC20(r *Report) {
 	c20R1(r)
 	c20PathCmp(r)
+	c20FilesIndex(r)
 	c20R2(r)
 	c20R3(r)
 	c20R4(r)
@@ -1012,4 +1013,69 @@ func c20PathCmp(r *Report) {
 		}
 		r.Check(reached > 0 && lenOK, "R1", key+"/length-relation", f.Pos(), "every return that can be true has passed "+want, "path."+name+" can return true without having established "+want+": a path that is a proper prefix (or extension) of a file's path resolves to that file")
 	}
+}
+
+// ---------- R1 (continued): the file table is indexed by file indices ----------
+
+// c20FilesIndex: in the front-ends, an index into Torrent.Files that is the position of a range loop must be the
+// position in Torrent.Files itself. Lists of file indices (filtered, sorted) are ranged over by value; using the
+// position in such a list as a file index names the first files of the table instead of the listed ones.
+func c20FilesIndex(r *Report) {
+	p := r.P
+	filesF := p.Field("tor", "Torrent", "Files")
+	if !r.Anchor("R1", "tor.Torrent.Files", filesF != nil) {
+		return
+	}
+	n := 0
+	for _, f := range p.SrcFuncs() {
+		if pk := relPkg(f); pk != "http" && pk != "fuse" {
+			continue
+		}
+		allInstrs(f, func(in ssa.Instruction) {
+			var base, idx ssa.Value
+			switch x := in.(type) {
+			case *ssa.IndexAddr:
+				base, idx = x.X, x.Index
+			case *ssa.Index:
+				base, idx = x.X, x.Index
+			default:
+				return
+			}
+			if fv, _ := loadedField(base); fv != filesF {
+				return
+			}
+			n++
+			idx = stripIntConv(idx)
+			bo, ok := idx.(*ssa.BinOp)
+			if !ok || bo.Op != token.ADD {
+				return
+			}
+			ph, ok := bo.X.(*ssa.Phi)
+			if !ok || ph.Comment != "rangeindex" {
+				return
+			}
+			// the slice (or integer) the loop ranges over: idx < len(X)
+			var ranged ssa.Value
+			for _, ref := range *bo.Referrers() {
+				cmp, ok := ref.(*ssa.BinOp)
+				if !ok || cmp.Op != token.LSS || cmp.X != ssa.Value(bo) {
+					continue
+				}
+				if c, okc := cmp.Y.(*ssa.Call); okc {
+					if bi, okb := c.Call.Value.(*ssa.Builtin); okb && bi.Name() == "len" {
+						ranged = c.Call.Args[0]
+					}
+				}
+			}
+			key := fmt.Sprintf("%s/Files[position]", fname(f))
+			if ranged == nil {
+				return // an integer range or a shape the rule does not know: not judged
+			}
+			r.Fn(f)
+			fv, _ := loadedField(ranged)
+			r.Check(fv == filesF, "R1", key, in.Pos(), "the file table is indexed by a position in the file table itself",
+				"Torrent.Files is indexed by the position of a loop over another list ("+exprStr(ranged)+"): a filtered or sorted list of file indices must be ranged over by value — its positions name the first files of the table, so a sub-directory's playlist or listing shows other files than its own")
+		})
+	}
+	r.Sentinel("R1.files-index", n, 3)
 }
